@@ -280,6 +280,48 @@ func runAdapter(r *prng.R, s *out.Sink, tier string) {
 			}
 		}
 	}
+	// the same adapter objects used for a second session with another party list (the orchestrator's factories may hand out
+	// one object per node): key generation among {1,2,3}, then — parties 2 and 3 re-initialised — among {2,3}, where both
+	// have another position. Every message is still bound to its transport-authenticated sender's place in *this* session.
+	{
+		objs := map[uint16]adapterParty{}
+		for _, id := range []uint16{1, 2, 3} {
+			objs[id] = eddsa.NewParty(id, nopLogger{})
+		}
+		session := func(group []uint16) error {
+			for _, id := range group {
+				src := id
+				objs[id].Init(group, 1, func(msg []byte, bc bool, to uint16) {
+					for _, q := range group {
+						if q != src && (bc || q == to) {
+							objs[q].OnMsg(msg, src, bc)
+						}
+					}
+				})
+			}
+			ctx, cancel := context.WithTimeout(context.Background(), 20*time.Second)
+			defer cancel()
+			errs := make(chan error, len(group))
+			for _, id := range group {
+				id := id
+				go func() { _, err := objs[id].KeyGen(ctx); errs <- err }()
+			}
+			var first error
+			for range group {
+				if err := <-errs; err != nil && first == nil {
+					first = err
+				}
+			}
+			return first
+		}
+		s.Count("eddsa/re-init-other-list")
+		s.N++
+		if err := session([]uint16{1, 2, 3}); err != nil {
+			s.Violate("C19", "eddsa: key generation among {1,2,3} on fresh adapter objects failed: "+err.Error(), "")
+		} else if err := session([]uint16{2, 3}); err != nil {
+			s.Violate("C19", "eddsa: the adapter objects of parties 2 and 3, used for a session among {1,2,3} before, do not complete a key generation among {2,3}: "+err.Error()+" (messages are filed under the senders' positions of the earlier session?)", "Init([1 2 3]) + KeyGen, then Init([2 3]) + KeyGen on the same objects")
+		}
+	}
 	// garbage into ClassifyMsg / OnMsg of an initialised party
 	p := eddsa.NewParty(1, nopLogger{})
 	p.Init([]uint16{1, 2, 3}, 1, func([]byte, bool, uint16) {})
